@@ -88,7 +88,16 @@ def instance_doc(case):
     for k, i in case["assigns"]:
         V = ZONE if i == "zone" else value_V(i)
         kids.append({"t": "assign", "key": k, "value": V, "lead": [], "trail": None})
+    nested = case.get("nested") or []
+    if nested:
+        # occurrences of schema field names below the schema block (a sub-block) with perturbed values
+        kids.append({"t": "block", "key": "SUB_1", "target": None, "lead": [], "tail": [],
+                     "kids": [{"t": "assign", "key": k, "value": ZONE if i == "zone" else value_V(i), "lead": [], "trail": None} for k, i in nested]})
     body = [{"t": "block", "key": case["name"], "target": None, "kids": kids, "lead": [], "tail": []}]
+    if nested and case.get("unrelated"):
+        # ... and in a block the schema says nothing about
+        body.append({"t": "block", "key": "ELSEWHERE", "target": None, "lead": [], "tail": [],
+                     "kids": [{"t": "assign", "key": k, "value": ZONE if i == "zone" else value_V(i), "lead": [], "trail": None} for k, i in nested]})
     if case.get("unrelated"):
         body.insert(0, {"t": "assign", "key": "TOPLEVEL", "value": V_str("active"), "lead": ["c"], "trail": None})
         body.append({"t": "block", "key": "OTHER", "target": None, "lead": [], "tail": [],
@@ -143,8 +152,10 @@ def members_of(chain, kind):
 
 def judge_change(fields: dict, name: str, path, key, old, new):
     """Return (ok, reason, expected_log_entry)."""
-    if path != "." + name or key not in fields:
-        return False, f"value of {path}.{key} changed although it is not a field of the schema block", None
+    # The repair walks the whole tree by field name (the mechanism the property names: _repair_ast_node), so an
+    # occurrence of a schema field name below or outside the schema's block is judged by the same rules, not flagged.
+    if key not in fields:
+        return False, f"value of {path}.{key} changed although the schema has no field of that name", None
     chain = fields[key]
     if old[0] != "str":
         return False, f"{key}: a non-text value {old!r} was changed to {new!r}", None
@@ -274,6 +285,24 @@ def check(case, root):
                                                             if c.get("code") in ("ENUM_CASEFOLD", "TYPE_COERCION") or c.get("tier") == "REPAIR"], fails)
             except Exception as e:
                 fails.append(("C11:unlisted:write:repaired-file-unreadable", f"{e}"))
+        # ---- `octave validate --fix --schema NAME`: the CLI has no channel for a repair log, so whatever it prints must hold
+        # the unchanged content (fix off) or only changes it also reports (it reports none)
+        for flags in ([], ["--fix"]):
+            code, out, err, exc = tools.cli(["validate", "--stdin", "--schema", name] + flags, input=text)
+            if exc is not None:
+                fails.append(("C11:unlisted:cli:raised", f"`octave validate {' '.join(flags)}` raised {exc!r}"))
+                continue
+            if "\nvalidation_status:" not in (out or ""):
+                continue
+            ctext = out.split("\n\nvalidation_status:")[0].rstrip("\n") + "\n"
+            try:
+                nc = model.nf_ast(parse(ctext))[0]
+            except Exception as e:
+                fails.append(("C11:unlisted:cli:printed-text-unreadable", f"{e} | {ctext!r}"))
+                continue
+            if nc != nf0:
+                fails.append((f"C11:unlisted:cli:{'fix' if flags else 'plain'}-changed-content-without-log",
+                              f"`octave validate {' '.join(flags)} --schema {name}` printed changed content and no repair record: {model.first_diff(nf0, nc)}"))
     finally:
         os.chdir(old_cwd)
         try:
@@ -310,7 +339,8 @@ def strategy():
             if k not in seen:
                 seen.add(k)
                 uniq.append([k, i])
-        return {"name": n, "fields": [list(x) for x in f], "assigns": uniq, "unrelated": u,
+        nested = [[k, i] for k, i in uniq if k in fd][:3] if seed % 3 == 0 else []
+        return {"name": n, "fields": [list(x) for x in f], "assigns": uniq, "unrelated": u, "nested": nested,
                 "sp": {"k": "len", "seed": seed, "level": 0.5} if len_ else {"k": "canon"}}
 
     return hs.builds(build, hs.sampled_from(["GEN_R", "WIDGET"]), fields, assigns, hs.booleans(), hs.integers(0, 2**30), hs.booleans())
